@@ -847,6 +847,12 @@ class Prop(Check):
         "Mult.C02_rule_list_iff_collect",
         "Mult.C02_rule_store_raw",
         "Mult.C02_skip_single_root_false",
+        "Tx.C02_walk_bridge",
+        "Tx.C02_ruleClass_bridge",
+        "Tx.C02_ruleClass_list_iff",
+        "Tx.C02_compile_list_iff",
+        "Tx.C02_rule_root_bridge",
+        "Tx.C02_tx_pinned_walk_false",
     ]
     DRIVER = "Drivers/Mult.lean"
     QUICK_CASES = 300
